@@ -209,6 +209,16 @@ pub fn decode_case_opt(ctx: &mut RunCtx, fx: &Fixture, o: Obj, bytes: &[u8], wha
             }
             strict::prover_strict(&pb).map_err(&wf)?;
             strict::verifier_strict(&v.to_bytes()).map_err(&wf)?;
+            // the description itself, under an independent parser
+            {
+                let stored = &fx.files[obj_index(Obj::Compressed)];
+                let end = match (compressed::decode(stored), compressed::decode(bytes)) {
+                    // the end of the table is known when the table flavour and the description's own scalars are the stored ones
+                    (Some((c0, _)), Some((c1, _))) if c0.hades_optimization == c1.hades_optimization => compressed::table_end(&c0).map(|e| e - c0.scalars.len() + c1.scalars.len()),
+                    _ => None,
+                };
+                compressed::strict(bytes, end).map_err(|e| Violation::new("I-wellformed", format!("a faulted compressed_circuit ({}) was accepted although {}", what, e)))?;
+            }
             let c = ProgCircuit { prog: fx.prog.clone(), tape: fx.tape.clone() };
             let mut rng = ScriptedRng::new(7);
             match guarded(|| under(env, || p.prove(&mut rng, &c).is_ok())) {
